@@ -1,5 +1,5 @@
 (* Proofs about the reference parser model (C20). *)
-From Oras Require Import Base.Prelude Base.Regex Generated.Regexes Model.Reference.
+From Oras Require Import Base.Prelude Base.Regex Generated.GC20 Model.Reference.
 
 (* ---------- split_first ---------- *)
 
